@@ -1,9 +1,11 @@
 use crate::common::Property;
 pub mod c01;
 pub mod c02;
+pub mod c06;
+pub mod c11;
 
 pub fn all() -> Vec<&'static dyn Property> {
-    vec![&c01::C01, &c02::C02]
+    vec![&c01::C01, &c02::C02, &c06::C06, &c11::C11]
 }
 
 pub fn by_id(id: &str) -> Option<&'static dyn Property> {
